@@ -462,6 +462,9 @@ class ASTSimplifyMapper(ASTIdentityMapper):
         # current_child is the current AST node that is being worked on.
         current_child = children_queue.popleft()
         while isinstance(current_child, NullASTNode):
+            if not children_queue:
+                # Nothing remains in this block.
+                return NullASTNode()
             current_child = children_queue.popleft()
 
         while children_queue:
@@ -472,7 +475,8 @@ class ASTSimplifyMapper(ASTIdentityMapper):
 
             # Expand any inner Blocks.
             if isinstance(next_child, Block):
-                children_queue.extendleft(next_child.children)
+                # extendleft() prepends one by one, i.e. in reverse order.
+                children_queue.extendleft(reversed(next_child.children))
                 continue
 
             # Merge adjacent conditionals.
